@@ -106,6 +106,7 @@ class Exec:
         if z3.is_bool(v): return v
         return v == z3.BitVecVal(1, v.size())
     def ptr_as_int(s, p):
+        if p.obj == -1: return p.off                 # function address (member-function pointers carry it as an integer)
         base = p.obj * 0x100000
         if isc(p.off): return base + p.off
         return z3.BitVecVal(base, 64) + p.off
